@@ -265,6 +265,11 @@ impl<'a> StepEval<'a> {
     }
 }
 
+/// guest-controlled text may contain control characters: never print it raw
+pub fn printable(s: &str, max: usize) -> String {
+    s.chars().take(max).flat_map(|c| if c.is_control() { c.escape_default().collect::<Vec<char>>() } else { vec![c] }).collect()
+}
+
 pub fn aspects_name(a: &Aspects) -> &'static str {
     if a.charge && !a.state {
         "charge"
@@ -328,8 +333,8 @@ pub fn finish(ctx: &Ctx, property: &str, mut stats: Stats, rule: &str, assumptio
         }
         let path = write_replay(property, f);
         println!("VIOLATION property={} replay={}", property, path.display());
-        println!("  what: {}", f.signature);
-        println!("  detail: {}", f.detail);
+        println!("  what: {}", printable(&f.signature, 200));
+        println!("  detail: {}", printable(&f.detail, 700));
         code = 1;
     }
     let wall = ctx.start.elapsed().as_secs_f64();
@@ -352,4 +357,118 @@ pub fn finish(ctx: &Ctx, property: &str, mut stats: Stats, rule: &str, assumptio
         EvidenceMeta { property, tier: ctx.tier.name(), seed: ctx.seed, rule, assumptions, wall_s: wall, violations: seen.len() as u64, extra },
     );
     code
+}
+
+/// Thorough tier: a bounded coverage-guided campaign (libFuzzer through cargo-fuzz, nightly toolchain) of
+/// `target`, `procs` processes x `runs` executions each on fresh corpus directories seeded from
+/// /verif/corpus/<target>/. A crash whose stderr carries the target's "PROPERTY VIOLATION:" line (or any
+/// other crash) becomes a failure with the crashing input as the replayable case. If the target cannot be
+/// built (no nightly toolchain), the campaign is skipped and the evidence says so.
+pub fn fuzz_campaign(ctx: &Ctx, target: &str, procs: usize, runs: u64, max_len: u32, stats: &mut Stats) {
+    let root = verif_root();
+    let fuzz_dir = root.join("harness").join("fuzz");
+    let build = std::process::Command::new("cargo").args(["+nightly", "fuzz", "build", target]).current_dir(&fuzz_dir).env("CARGO_NET_OFFLINE", "true").output();
+    match build {
+        Ok(o) if o.status.success() => {}
+        Ok(o) => {
+            stats.notes.push(format!("fuzz campaign {} skipped: build failed: {}", target, String::from_utf8_lossy(&o.stderr).lines().last().unwrap_or("")));
+            return;
+        }
+        Err(e) => {
+            stats.notes.push(format!("fuzz campaign {} skipped: cargo fuzz not available: {}", target, e));
+            return;
+        }
+    }
+    let bin = root.join("target").join("harness").join("x86_64-unknown-linux-gnu").join("release").join(target);
+    let seeds = root.join("corpus").join(target);
+    let results: Vec<(u64, Option<(String, Vec<u8>)>)> = std::thread::scope(|sc| {
+        let handles: Vec<_> = (0..procs)
+            .map(|i| {
+                let (bin, seeds, root) = (bin.clone(), seeds.clone(), root.clone());
+                sc.spawn(move || {
+                    let work = std::env::temp_dir().join(format!("h8verif-fuzz-{}-{}-{}", std::process::id(), target, i));
+                    let _ = std::fs::remove_dir_all(&work);
+                    let _ = std::fs::create_dir_all(work.join("corpus"));
+                    let _ = std::fs::create_dir_all(work.join("artifacts"));
+                    let mut cmd = std::process::Command::new(&bin);
+                    cmd.arg(work.join("corpus"));
+                    if seeds.is_dir() {
+                        cmd.arg(&seeds);
+                    }
+                    cmd.arg(format!("-runs={}", runs))
+                        .arg(format!("-seed={}", (mix(ctx.seed, 0xf022 + i as u64) % 0x7fff_fffe) + 1))
+                        .arg(format!("-max_len={}", max_len))
+                        .arg("-len_control=0")
+                        .arg("-print_final_stats=1")
+                        .arg("-timeout=60")
+                        .arg(format!("-artifact_prefix={}/", work.join("artifacts").display()))
+                        .env("H8VERIF_ROOT", &root)
+                        .env("RUST_LIB_BACKTRACE", "0")
+                        .current_dir(&work);
+                    let out = cmd.output();
+                    let mut execs = 0u64;
+                    let mut crash = None;
+                    if let Ok(o) = out {
+                        let err = String::from_utf8_lossy(&o.stderr).to_string();
+                        for l in err.lines() {
+                            if let Some(n) = l.strip_prefix("stat::number_of_executed_units:") {
+                                execs = n.trim().parse().unwrap_or(0);
+                            }
+                        }
+                        if !o.status.success() {
+                            let msg = err.lines().find(|l| l.contains("PROPERTY VIOLATION:")).map(|l| l.to_string()).unwrap_or_else(|| err.lines().rev().find(|l| l.contains("ERROR") || l.contains("panicked")).unwrap_or("fuzz target crashed").to_string());
+                            let input = std::fs::read_dir(work.join("artifacts")).ok().and_then(|rd| rd.flatten().next()).and_then(|f| std::fs::read(f.path()).ok()).unwrap_or_default();
+                            crash = Some((msg, input));
+                        }
+                    }
+                    let _ = std::fs::remove_dir_all(&work);
+                    (execs, crash)
+                })
+            })
+            .collect();
+        handles.into_iter().map(|h| h.join().unwrap_or((0, None))).collect()
+    });
+    let mut total = 0;
+    for (execs, crash) in results {
+        total += execs;
+        if let Some((msg, input)) = crash {
+            stats.fail(Failure {
+                signature: format!("fuzz {} | {}", target, fail_field(&msg.replace("PROPERTY VIOLATION:", "").replace(|c: char| c.is_ascii_digit(), ""))),
+                detail: msg.chars().take(600).collect(),
+                case: json!({"kind": "fuzz", "target": target, "input": hex(&input)}),
+            });
+        }
+    }
+    stats.evaluations += total;
+    stats.class_n(&format!("libFuzzer executions of {}", target), total);
+}
+
+/// `--replay` of a case saved by `fuzz_campaign`: run the target's entry point directly (no libFuzzer)
+pub fn replay_fuzz(property: &str, v: &Value) -> Option<i32> {
+    let case = v.get("case").unwrap_or(v);
+    if case.get("kind").and_then(|k| k.as_str()) != Some("fuzz") {
+        return None;
+    }
+    let target = case.get("target")?.as_str()?;
+    let input = unhex(case.get("input")?.as_str()?)?;
+    let r = match target {
+        "fuzz_step" => crate::fuzzapi::step(&input),
+        "fuzz_elf" => crate::fuzzapi::elf(&input),
+        "fuzz_timer" => crate::fuzzapi::timer(&input),
+        "fuzz_lines" => crate::fuzzapi::lines(&input),
+        _ => return Some(2),
+    };
+    Some(match r {
+        Ok(()) => {
+            println!("replay {}: fuzz input passes ({} profile)", property, profile_name());
+            0
+        }
+        Err(m) => {
+            let f = Failure { signature: format!("fuzz {}", target), detail: m, case: case.clone() };
+            let p = write_replay(property, &f);
+            println!("VIOLATION property={} replay={}", property, p.display());
+            println!("  detail: {}", f.detail);
+            1
+        }
+    })
 }
